@@ -44,7 +44,11 @@ def monitor(run):
                     if score[s] > score[v] * (1 + F(1, 10 ** 9)):
                         yield (f'tick {t} pool {pi}: container {v} (score {float(score[v]):.6g}) killed while {s} '
                                f'(score {float(score[s]):.6g}) survives')
-            lowest = min(victims, key=lambda c: score[c])
+            # the victim killed last is one of those with the lowest score; among equal scores the code's (stable) order
+            # is not observable, so the kill counts as unneeded only if it is unneeded whichever of them was last,
+            # i.e. for the one with the largest usage
+            smin = min(score[c] for c in victims)
+            lowest = max((c for c in victims if score[c] <= smin * (1 + F(1, 10 ** 9))), key=lambda c: usage[c])
             if total - sum(usage[v] for v in victims if v != lowest) <= cap - TOL:
                 yield (f'tick {t} pool {pi}: kill of container {lowest} was not needed: usage already fitted '
                        f'after the other victims')
